@@ -170,4 +170,6 @@ P.bound('table-roundtrip', 'dyn/C19.py', 'table',
         'of magnitudes 1e-300..1e300 and both signs, formats %.5g %r %d %.12e %s; 300 (quick) / 5000 (thorough) holders',
         'T-FMT audit: parsing the text recovers every value to the precision of the format; native cross-check of the '
         'GetSeriesList / GenerateCSVtext contracts')
+P.bound('render-mutate-render', 'dyn/C19.py', 'sequences', '30 (quick) / 500 (thorough) random orders of 8 mutations of one holder, rendering after each',
+        'the table is that of the series stored at the time of each call (no stale state between calls)')
 P.replay_script = 'dyn/C19.py'
